@@ -194,10 +194,14 @@ func genMutCase(t *rapid.T) MutCase {
 			op.Val = rapid.SampledFrom([]int{0, 0xff, -1}).Draw(t, "val")
 		case "trunc":
 			op.Pos, op.At = 0, ""
-			if rapid.Bool().Draw(t, "truncToPos") {
+			switch drawUniform(t, 3, "truncHow") {
+			case 0: // cut at the drawn position (section / element borders)
 				op.N = total - pos
 				op.At = r.name
-			} else {
+			case 1: // keep only the first 0..12 bytes
+				op.N = total - drawUniform(t, 13, "keep")
+				op.At = "head"
+			default:
 				op.N = small("n")
 			}
 		case "extend":
@@ -465,6 +469,11 @@ func runMutant(cs MutCase) ev.Outcome {
 		return baseFail(cs.Curve, cs.Seed2, srcErr)
 	}
 	classes := describeOps(cs.Ops)
+	if len(data) <= 3 {
+		classes = append(classes, fmt.Sprintf("mutant-len=%d", len(data)))
+	} else if len(data) == len(orig)-1 {
+		classes = append(classes, "mutant-len=one-byte-short")
+	}
 	strict := (cs.Kind == "r1" || cs.Kind == "r3") && localFaults(cs.Ops)
 	if strict {
 		classes = append(classes, "transit-fault="+cs.Kind)
